@@ -1087,7 +1087,8 @@ func (bc *BlockChain) GetBodyRLP(hash common.Hash) rlp.RawValue {
 
 // HasBlock checks if a block is fully present in the database or not.
 func (bc *BlockChain) HasBlock(hash common.Hash, number uint64) bool {
-	if bc.blockCache.Contains(hash) {
+	// the cache is keyed by hash only: a hit counts only for the block's own number, as in the database
+	if block, ok := bc.blockCache.Peek(hash); ok && block.(*types.Block).NumberU64() == number {
 		return true
 	}
 	return rawdb.HasBody(bc.db, hash, number)
@@ -1111,7 +1112,8 @@ func (bc *BlockChain) HasBlockAndState(hash common.Hash, number uint64) bool {
 }
 
 func (bc *BlockChain) GetBlock(hash common.Hash, number uint64) *types.Block {
-	if block, ok := bc.blockCache.Get(hash); ok {
+	// the cache is keyed by hash only: a hit counts only for the block's own number, as in the database
+	if block, ok := bc.blockCache.Get(hash); ok && block.(*types.Block).NumberU64() == number {
 		return block.(*types.Block)
 	}
 	block := rawdb.ReadBlock(bc.db, hash, number)
